@@ -1,1 +1,50 @@
-From NV Require Import Base.
+(* C09 — encoding never silently corrupts a value (bit-level and decision-rule statements). *)
+From NV Require Import Base Bits Defn PyNum Fields Dispatch Template TemplateEnc Encode Spec SpecProofs EncodeProofs.
+
+(* a number whose rounded quotient lies outside the representable interval (top code reserved for
+   "not available"; negative for unsigned) is rejected: an accepted one is inside, and is stored in
+   two's complement — never wrapped or clipped *)
+Theorem C09_range : forall v len signed res z,
+  encode_num v len signed res = Ok z ->
+  exists q n, py_div v res = Ok q /\ (match q with PF f => py_round f | PI k => Ok k end) = Ok n /\
+    (if signed then - Z.shiftl 1 (len - 1) <= n <= Z.shiftl 1 (len - 1) - 2 else 0 <= n <= Z.shiftl 1 len - 2) /\
+    z = (if signed && (n <? 0) then Z.shiftl 1 len + n else n).
+Proof. exact encode_num_inv. Qed.
+Print Assumptions C09_range.
+
+(* a message that lacks a field the definition lists is never encoded *)
+Theorem C09_missing : forall LE steps mf acc id k m s,
+  In (EField id k m s) steps -> get_field id mf = None ->
+  forall x, run_esteps LE acc steps mf <> Ok x.
+Proof. exact missing_field_is_error. Qed.
+Print Assumptions C09_missing.
+
+(* changing field values changes no payload bit outside the ranges of the fields that changed *)
+Theorem C09_local : forall vs ws i,
+  Forall fwf vs -> Forall fwf ws -> 0 <= i ->
+  map (fun x => (snd (fst x), snd x)) vs = map (fun x => (snd (fst x), snd x)) ws ->
+  (forall n a b, nth_error vs n = Some a -> nth_error ws n = Some b ->
+                 snd (fst a) <= i < snd (fst a) + snd a -> fst (fst a) = fst (fst b)) ->
+  Z.testbit (fold_left put_fld vs 0) i = Z.testbit (fold_left put_fld ws 0) i.
+Proof. exact encoded_bits_local. Qed.
+Print Assumptions C09_local.
+
+(* what is written is what is read: each field of the produced payload is the converted value mod 2^len *)
+Theorem C09_reads_back : forall vs v off len,
+  Forall fwf vs -> In (v, off, len) vs ->
+  (forall g, In g vs -> g = (v, off, len) \/ disj (v, off, len) g) ->
+  decode_int (fold_left put_fld vs 0) off len = v mod 2 ^ len.
+Proof. exact encoded_field_reads_back. Qed.
+Print Assumptions C09_reads_back.
+
+(* absent -> absent *)
+Theorem C09_absent : forall len signed, 1 <= len -> (signed = true -> 4 <= len) ->
+  let z := na_pattern len signed in
+  0 <= z < 2 ^ len /\ not_available signed len (sign_extend signed len z) = true.
+Proof. exact absent_roundtrip. Qed.
+Print Assumptions C09_absent.
+
+Example C09_example :
+  encode_num (PI 65535) 16 false (PI 1) = Err ERange /\ encode_num (PI (-1)) 16 false (PI 1) = Err ERange /\
+  encode_num (PI 65534) 16 false (PI 1) = Ok 65534 /\ encode_num (PI 32767) 16 true (PI 1) = Err ERange.
+Proof. vm_compute. auto. Qed.
